@@ -199,13 +199,14 @@ func execC02(t *trace.Trace, dir string) *harness.RunResult {
 			}
 		}
 	}
+	nOps := len(fp)
 	for k, v := range out.Probes {
 		if strings.HasPrefix(k, "attrs-ok") && v > 0 && muts >= 3 {
 			res.NonTrivial = true
 			fp = append(fp, k)
 		}
 	}
-	sort.Strings(fp[min(len(fp), 24):])
+	sort.Strings(fp[nOps:]) // probe keys arrive in map order
 	res.Fingerprint = fmt.Sprintf("sb%d|%d|%s", t.Config.SB, out.Restarts, strings.Join(fp, ""))
 	return res
 }
